@@ -214,8 +214,8 @@ impl Scenario for TrioScn {
             trio_provide(w, &h.trio, ALICE, r.first, None).unwrap_or_else(|e| panic!("trio root deposit {:?}", e));
             if r.pre_swaps {
                 let (res, _) = trio_pool(w, &h.trio.addr).unwrap();
-                trio_swap(w, &h.trio, BOB, 0, 1, (res[0] / 50).max(2), loose_belief(), None).expect("pre swap");
-                trio_swap(w, &h.trio, CAROL, 2, 0, (res[2] / 40).max(2), loose_belief(), None).expect("pre swap");
+                let _ = trio_swap(w, &h.trio, BOB, 0, 1, (res[0] / 50).max(2), loose_belief(), None);
+                let _ = trio_swap(w, &h.trio, CAROL, 2, 0, (res[2] / 40).max(2), loose_belief(), None);
             }
         }
         if let Some(target) = r.mid_ramp_to {
